@@ -63,13 +63,25 @@ Fixpoint skip_to_ins (pre : list line) (l : list line) : option (list line * ins
   end.
 
 (** the pair rules; result = (remove_both, remove_first, remove_second, swap_both) *)
+(** "#" followed by decimal digits only *)
+Fixpoint all_digits (s : string) : bool :=
+  match s with
+  | EmptyString => true
+  | String a r => (Nat.leb 48 (nat_of_ascii a) && Nat.leb (nat_of_ascii a) 57) && all_digits r
+  end.
+Definition is_plain_number (s : string) : bool :=
+  match s with
+  | String "#"%char r => negb (String.eqb r "") && all_digits r
+  | _ => false
+  end.
+
 Definition cmp_rule (reg : option string) (cmpm : mnem) (i1 i2 : instr) : bool :=
   match reg with
   | Some r =>
       if is_imm r && mnem_eqb (i_mn i1) cmpm && is_imm (i_op i1) then
         match i_mn i2 with
         | BNE => String.eqb r (i_op i1) && negb (i_prot i2)
-        | BEQ => negb (String.eqb r (i_op i1)) && negb (i_prot i2)
+        | BEQ => negb (String.eqb r (i_op i1)) && is_plain_number r && is_plain_number (i_op i1) && negb (i_prot i2)
         | _ => false
         end
       else false
